@@ -286,6 +286,9 @@ def classify(failure):
 def replay(chk, obj):
     _setup_state(chk, 0)
     case = obj.get('case', obj)
+    if not (isinstance(case, dict) and 'shape' in case and 'calls' in case):
+        print(json.dumps(obj, indent=1)[:6000])
+        return 0
     fs = D.eval_case(case)
     print(json.dumps({'case': case, 'failures_now': fs}, indent=1)[:6000])
     return 1 if fs else 0
